@@ -395,7 +395,14 @@ class Ctx:
                 f["oracle"] = o["name"]
                 failures.append(f)
         # Failing-input search after a break
-        if broken and not failures:
+        def _is_known(f):
+            try:
+                kid = classify(f) if classify else None
+            except Exception:
+                kid = None
+            return kid is not None and kid in known_ids
+        # (failures that are instances of recorded known findings do not count as a failing input for the break)
+        if broken and all(_is_known(f) for f in failures):
             for s in self.searchers:
                 try:
                     found = s(self)
@@ -406,7 +413,7 @@ class Ctx:
                     f = dict(f)
                     f.setdefault("oracle", getattr(s, "__name__", "search"))
                     failures.append(f)
-                if failures:
+                if found:
                     break
         lines = []
         violations = 0
